@@ -30,13 +30,13 @@ def history_for(kind, i, seed):
     vals = [SM.gen_valuation(rng, cfg['nsym'] + 2) for _ in range(NVAL)]
     return rs, cfg, ops, vals
 
-def _child_check(ops, vals, dense, backing=False):
+def _child_check(ops, vals, dense, backing=False, reuse=False):
     from . import sim_machine as SM, sim_calls as SC
     SC.install_budget()
     probes = core.LineProbes(probe_sites())
     probes.start()
     try:
-        r = SM.check_history(ops, vals, dense, False, backing)
+        r = SM.check_history(ops, vals, dense, False, backing, reuse)
     finally:
         probes.stop()
     r['probes_hit'] = sorted(probes.hits)
@@ -80,7 +80,7 @@ def probe_sites():
 def one_run(kind, i, seed, dense=True):
     from . import sim_machine as SM
     rs, cfg, ops, vals = history_for(kind, i, seed)
-    r = core.fork_call(_child_check, (ops, vals, dense, cfg.get('backing') or False), CHILD_TIMEOUT)
+    r = core.fork_call(_child_check, (ops, vals, dense, cfg.get('backing') or False, bool(cfg.get('reuse_probes'))), CHILD_TIMEOUT)
     out = {'kind': kind, 'run': i, 'seed': rs, 'mode': cfg['mode'], 'n': len(ops),
            'hh': core.digest(ops)[:16]}
     if r.status == 'timeout':
@@ -110,20 +110,20 @@ def one_run(kind, i, seed, dense=True):
         out['sample'] = {'config': cfg, 'ops': ops}
     return out
 
-def confirm(ops, vals, cls, backing=False):
-    r = core.fork_call(_child_check, (ops, vals, True, backing), CHILD_TIMEOUT)
+def confirm(ops, vals, cls, backing=False, reuse=False):
+    r = core.fork_call(_child_check, (ops, vals, True, backing, reuse), CHILD_TIMEOUT)
     return r.status == 'ok' and r.value['status'] == 'violation' and r.value['class'] == cls, r
 
-def minimise(ops, vals, cls, backing=False):
+def minimise(ops, vals, cls, backing=False, reuse=False):
     def test(cand):
         if not cand:
             return False
-        ok, _ = confirm(cand, vals, cls, backing)
+        ok, _ = confirm(cand, vals, cls, backing, reuse)
         return ok
     ops2 = core.ddmin(ops, test, 150)
     # a single valuation is enough if it still shows the mismatch
     for v in vals:
-        ok, _ = confirm(ops2, [v], cls, backing)
+        ok, _ = confirm(ops2, [v], cls, backing, reuse)
         if ok:
             return ops2, [v]
     return ops2, vals
@@ -196,12 +196,13 @@ def main(args):
         seen.add(cls)
         rs, cfg, ops, vals = history_for(tasks[k][0], tasks[k][1], seed)
         bk = cfg.get('backing') or False
-        ok, _ = confirm(ops, vals, cls, bk)
+        ru = bool(cfg.get('reuse_probes'))
+        ok, _ = confirm(ops, vals, cls, bk, ru)
         if not ok:
             batch.harness_errors.append('C07 violation of %s run %d (%s) did not reproduce in a fresh child' % (tasks[k][0], tasks[k][1], cls))
             continue
-        mops, mvals = minimise(ops, vals, cls, bk)
-        ok, rr = confirm(mops, mvals, cls, bk)
+        mops, mvals = minimise(ops, vals, cls, bk, ru)
+        ok, rr = confirm(mops, mvals, cls, bk, ru)
         d = rr.value.get('detail', {}) if ok else {}
         rec = {'property': 'C07', 'seed': seed, 'stream': tasks[k][0], 'run': tasks[k][1], 'run_seed': rs, 'config': cfg,
                'class': cls, 'ops': mops, 'valuations': mvals, 'schedule': 'single machine, ops in list order',
@@ -250,7 +251,7 @@ def main(args):
 def replay(path):
     with open(path) as f:
         rec = json.load(f)
-    ok, r = confirm(rec['ops'], rec['valuations'], rec['class'], rec.get('config', {}).get('backing') or False)
+    ok, r = confirm(rec['ops'], rec['valuations'], rec['class'], rec.get('config', {}).get('backing') or False, bool(rec.get('config', {}).get('reuse_probes')))
     if r.status != 'ok':
         print('HARNESS-ERROR replay did not complete: %s' % (r.value,))
         return 2
